@@ -179,3 +179,17 @@ def spec_for(case, salt=""):
         return case["row_labels"]  # explicit (regression files)
     h = zlib.crc32((salt + json.dumps(case, sort_keys=True, default=str)).encode())
     return INDEX_SPECS[h % len(INDEX_SPECS)]
+
+
+OFFSETS = [0, 0, 0, 0, 240000000, 2 ** 31 + 7]
+
+
+def offset_for(case, salt="off"):
+    """Where on the chromosome a generated table sits (near the start, at human-chromosome scale, beyond 2^31): a pure
+    function of the case JSON; an explicit case["offset"] wins."""
+    import json
+    import zlib
+
+    if isinstance(case, dict) and "offset" in case:
+        return case["offset"]
+    return OFFSETS[zlib.crc32((salt + json.dumps(case, sort_keys=True, default=str)).encode()) % len(OFFSETS)]
